@@ -295,6 +295,12 @@ def cases(draw):
         # items that merely share their name with the ones steering a read: in ~Well they are ordinary items
         well.append(draw(st.sampled_from([["VERS", "", ["f", "7.1"], "software version"], ["DLM", "", ["s", "SEMICOLON"], "export delimiter"],
                                          ["WRAP", "", ["s", "YES"], "gift wrap"]])))
+    if draw(st.integers(0, 5)) == 0:
+        # fields longer than any line width a writer might want to keep to: they are content, not layout
+        well.append(draw(st.sampled_from([
+            ["LOC", "", ["s", "1650 FT FROM THE NORTH LINE AND 990 FT FROM THE EAST LINE OF SECTION 12 TOWNSHIP 7 RANGE 3 WEST OF THE FIFTH"], "location"],
+            ["RMK", "", ["s", "ok"], "remark " + "that goes on and on " * 6 + "until it ends"],
+            ["EKB", "M", ["s", "x" * 85], "one word wider than a page"]])))
     params = items("P", 0, 8)
     nrows = draw(st.integers(1, 3))
     curves = []
